@@ -49,6 +49,7 @@ class Sched:
         self.aborting = False
         self.error = None
         self.npoints_all = 0                # including single-alternative points
+        self.expr = False                   # expression-level points (instrumented modules) on?
 
     # -- choice ---------------------------------------------------------------------------
     def _choose(self, running):
@@ -280,7 +281,7 @@ def _make_tracer(s, tid, watched, opcodes, calls=False):
                 if opcodes:
                     frame.f_trace_opcodes = True
                 return local
-            if calls:
+            if calls and code is not _pt.__code__:
                 back = frame.f_back
                 if back is not None and back.f_code.co_filename in watched:
                     frame.f_trace_lines = False
@@ -292,11 +293,12 @@ def _make_tracer(s, tid, watched, opcodes, calls=False):
 
 
 def run_once(bodies, prefix, shared, watched, opcodes=False, timeout=20.0, expect=None,
-             calls=False):
+             calls=False, expr=False):
     """Run the thread bodies (callables taking `shared`) under the schedule `prefix` (then choice
     0).  Returns an Execution."""
     n = len(bodies)
     s = Sched(n, prefix, expect)
+    s.expr = expr
     _CURRENT[0] = s
 
     def wrapper(i):
@@ -505,12 +507,92 @@ def restore_state(module, snap):
             cur.extend(content)
 
 
-def import_with_cooperative_locks(package):
+PT_NAME = "__mc_pt__"
+
+
+def _pt(value):
+    """Identity; inside an exploration at granularity 'expr' also a scheduling point.  Calls to it
+    are woven into the watched modules at import (see instrument_source): after every attribute
+    read, subscript read and call return inside a function body - i.e. between any two reads of
+    shared state in ONE source line."""
+    s = _CURRENT[0]
+    if s is not None and s.expr:
+        tid = getattr(_TLS, "tid", None)
+        if tid is not None and not s.aborting:
+            s.point(tid)
+    return value
+
+
+def instrument_source(source, filename):
+    """AST of `source` with every Load-context Attribute / Subscript and every Call inside a
+    function body wrapped as __mc_pt__(<expr>).  Evaluation order and results are unchanged
+    (identity call); decorators, defaults, annotations and class-level statements are left alone
+    (they run at import, never under the scheduler)."""
+    import ast
+
+    class T(ast.NodeTransformer):
+        def __init__(self):
+            self.depth = 0
+
+        def _func(self, node):
+            self.depth += 1
+            node.body = [self.visit(b) for b in node.body]
+            self.depth -= 1
+            return node
+
+        visit_FunctionDef = _func
+        visit_AsyncFunctionDef = _func
+
+        def visit_Lambda(self, node):
+            self.depth += 1
+            node.body = self.visit(node.body)
+            self.depth -= 1
+            return node
+
+        def visit_ClassDef(self, node):
+            saved, self.depth = self.depth, 0
+            node.body = [self.visit(b) for b in node.body]
+            self.depth = saved
+            return node
+
+        def visit_AnnAssign(self, node):
+            if node.value is not None:
+                node.value = self.visit(node.value)
+            node.target = self.visit(node.target)
+            return node
+
+        def _wrap(self, node):
+            node = self.generic_visit(node)
+            if self.depth and isinstance(getattr(node, "ctx", ast.Load()), ast.Load):
+                new = ast.Call(func=ast.Name(id=PT_NAME, ctx=ast.Load()), args=[node], keywords=[])
+                return ast.copy_location(new, node)
+            return node
+
+        visit_Attribute = _wrap
+        visit_Subscript = _wrap
+
+        def visit_Call(self, node):
+            if isinstance(node.func, ast.Name) and node.func.id == "super" and not node.args:
+                return node
+            return self._wrap(node)
+
+    tree = T().visit(ast.parse(source, filename))
+    ast.fix_missing_locations(tree)
+    return tree
+
+
+def import_with_cooperative_locks(package, instrument=()):
     """(Re-)import `package` while multiprocessing.Lock/RLock and threading.Lock/RLock create
     cooperative locks, so that also factories captured at import time (e.g.
     defaultdict(multiprocessing.Lock)) are cooperative.  Third-party modules are loaded first by
-    a plain import, then only the package's own modules are re-imported under the patch."""
+    a plain import, then only the package's own modules are re-imported under the patch.
+    `instrument`: file names whose source is compiled through instrument_source (expression-level
+    scheduling points); needs an interpreter that finds no cached byte code for them (the runner
+    uses -B and a private, empty PYTHONPYCACHEPREFIX)."""
+    import builtins
     import importlib
+    import importlib.util
+    import importlib.machinery as mach
     import multiprocessing
     import threading as th
     importlib.import_module(package)
@@ -521,10 +603,37 @@ def import_with_cooperative_locks(package):
     multiprocessing.RLock = lambda *a, **k: CoopLock(True)
     th.Lock = lambda *a, **k: CoopLock(False)
     th.RLock = lambda *a, **k: CoopLock(True)
+    setattr(builtins, PT_NAME, _pt)
+    instrument = frozenset(instrument)
+    done = []
+    orig_s2c = mach.SourceFileLoader.source_to_code
+    orig_get = mach.SourceFileLoader.get_code
+
+    def source_to_code(self, data, path, *a, **k):
+        if path in instrument:
+            done.append(path)
+            src = importlib.util.decode_source(data) if isinstance(data, bytes) else data
+            return compile(instrument_source(src, path), path, "exec", dont_inherit=True)
+        return orig_s2c(self, data, path, *a, **k)
+
+    def get_code(self, fullname):
+        path = self.get_filename(fullname)
+        if path in instrument:        # never from cached byte code
+            return self.source_to_code(self.get_data(path), path)
+        return orig_get(self, fullname)
+
+    mach.SourceFileLoader.source_to_code = source_to_code
+    mach.SourceFileLoader.get_code = get_code
     try:
-        return importlib.import_module(package)
+        mod = importlib.import_module(package)
     finally:
         multiprocessing.Lock, multiprocessing.RLock, th.Lock, th.RLock = saved
+        mach.SourceFileLoader.source_to_code = orig_s2c
+        mach.SourceFileLoader.get_code = orig_get
+    missing = instrument - frozenset(done)
+    if missing:
+        raise RuntimeError("not instrumented (imported from elsewhere?): %r" % sorted(missing))
+    return mod
 
 
 def reset_locks(module):
